@@ -61,13 +61,22 @@ Definition and_apply (st : and_st) (fire : option bool) (succeeded : bool) : and
   | (r, f, o) => ((r, f), match fire with Some x => Some x | None => o end)
   end.
 
-(* ArgumentUnslicer.receiveClose then CallUnslicer.receiveClose for a call with n unresolved gifts (n >= 1):
-   every gift contributed one Deferred argument (nunref = n) and one ready_deferred *)
-Definition gnet_init (n : nat) : gnet :=
-  let nun := Z.of_nat n in
-  gmk nun (args_close_has_all nun)
-      (fst (and_init (args_close_dl_len nun (Z.of_nat n)))) (snd (and_init (args_close_dl_len nun (Z.of_nat n))))
-      (fst (and_init 1%Z)) (snd (and_init 1%Z)) None n.
+Definition and_feed (st : and_st * option bool) (r : bool) : and_st * option bool := and_apply (fst st) (snd st) r.
+
+(* ArgumentUnslicer.receiveClose then CallUnslicer.receiveClose for a call of which the third-party references with the
+   results `pre` have ALREADY resolved / failed while the call was being received, and m are still unresolved.  Every gift
+   contributed one ready_deferred; only the unresolved ones still count in num_unreferenceable_children (updateChild of an
+   early one ran before _all_children_are_referenceable_d existed: no effect besides the decrement).  AsyncAND.__init__
+   runs _cbDeferred at once for every component that has already fired; if that fires the arguments' AsyncAND, the
+   call's AsyncAND (built next, over that one component) fires at once too. *)
+Definition gnet_close (pre : list bool) (m : nat) : gnet :=
+  let nun := Z.of_nat m in
+  let a1 := fold_left and_feed pre (and_init (args_close_dl_len nun (Z.of_nat (List.length pre + m))), None) in
+  let a2 : and_st * option bool :=
+      match snd a1 with Some r => and_apply (and_init 1%Z) None r | None => (and_init 1%Z, None) end in
+  gmk nun (args_close_has_all nun) (fst (fst a1)) (snd (fst a1)) (fst (fst a2)) (snd (fst a2)) (snd a2) m.
+
+Definition gnet_init (n : nat) : gnet := gnet_close [] n.
 
 (* TheirReferenceUnslicer: Tub.getReference fired.  _ready: obj_deferred.callback (-> ArgumentUnslicer.updateChild, which
    may fire _all_children_are_referenceable_d -> the arguments' AsyncAND), then ready_deferred.callback (-> the arguments'
@@ -101,10 +110,13 @@ Record state := mk {
   evq : list thunk;
   trace : list event;             (* newest first *)
   lost : bool;                    (* the receiver's Broker.disconnected (Broker.finish has run) *)
-  dropped : list call             (* deliveries that were queued when the connection was lost: they never run *)
+  dropped : list call;            (* deliveries that were queued when the connection was lost: they never run *)
+  early : list (nat * bool);      (* third-party references that resolved / failed while their call was still being received *)
+  cut : option nat                (* the SENDER has lost the connection: Some k = only the first k calls of `wire` are really in
+                                     flight; what is serialized afterwards is written to a dead transport and stays there *)
 }.
 
-Definition init : state := mk 0 [] None [] [] [] [] [] false [].
+Definition init : state := mk 0 [] None [] [] [] [] [] false [] [] None.
 
 Definition is_none {A} (o : option A) : bool := match o with None => true | Some _ => false end.
 Definition is_nil {A} (l : list A) : bool := match l with [] => true | _ => false end.
@@ -122,8 +134,8 @@ Fixpoint pump (fuel : nat) (s : state) : state :=
       | None => s
       | Some (c, rest) =>
         match stalls c with
-        | 0 => pump f (mk (next_id s) rest None (wire s ++ [c]) (inq s) (waiting s) (evq s) (trace s) (lost s) (dropped s))
-        | S _ => mk (next_id s) rest (Some (c, stalls c)) (wire s) (inq s) (waiting s) (evq s) (trace s) (lost s) (dropped s)
+        | 0 => pump f (mk (next_id s) rest None (wire s ++ [c]) (inq s) (waiting s) (evq s) (trace s) (lost s) (dropped s) (early s) (cut s))
+        | S _ => mk (next_id s) rest (Some (c, stalls c)) (wire s) (inq s) (waiting s) (evq s) (trace s) (lost s) (dropped s) (early s) (cut s)
         end
       end
     end
@@ -134,33 +146,46 @@ Definition issue (st : nat) (f : fate) (s : state) : state :=
   let c := {| cid := next_id s; stalls := st; cfate := f |} in
   let q := q_put sendq_push c (sendq s) in
   let idle := is_none (cur s) && is_nil (if send_idle_before_enqueue then sendq s else q) in
-  let s1 := mk (S (next_id s)) q (cur s) (wire s) (inq s) (waiting s) (evq s) (trace s) (lost s) (dropped s) in
+  let s1 := mk (S (next_id s)) q (cur s) (wire s) (inq s) (waiting s) (evq s) (trace s) (lost s) (dropped s) (early s) (cut s) in
   if idle then pump (S (List.length q)) s1 else s1.
 
 (* the Deferred on which produce() is paused fires *)
 Definition release (s : state) : state :=
   match cur s with
   | None => s
-  | Some (c, S (S m)) => mk (next_id s) (sendq s) (Some (c, S m)) (wire s) (inq s) (waiting s) (evq s) (trace s) (lost s) (dropped s)
+  | Some (c, S (S m)) => mk (next_id s) (sendq s) (Some (c, S m)) (wire s) (inq s) (waiting s) (evq s) (trace s) (lost s) (dropped s) (early s) (cut s)
   | Some (c, _) =>
     pump (S (List.length (sendq s)))
-         (mk (next_id s) (sendq s) None (wire s ++ [c]) (inq s) (waiting s) (evq s) (trace s) (lost s) (dropped s))
+         (mk (next_id s) (sendq s) None (wire s ++ [c]) (inq s) (waiting s) (evq s) (trace s) (lost s) (dropped s) (early s) (cut s))
   end.
 
 (* the last byte of the oldest serialized call reaches the receiver: CallUnslicer.receiveClose ->
    PBRootUnslicer.receiveChild -> Broker.scheduleCall *)
-Definition rdy_on_arrival (f : fate) : rdy := match f with FGift (S n) => Pending (gnet_init (S n)) | _ => Ready end.
+Definition early_of (k : nat) (e : list (nat * bool)) : list bool := map snd (filter (fun x => fst x =? k) e).
+
+Definition rdy_on_arrival (c : call) (e : list (nat * bool)) : rdy :=
+  match cfate c with
+  | FGift (S n) =>
+    let pre := firstn (S n) (early_of (cid c) e) in
+    let g := gnet_close pre (S n - List.length pre) in
+    match g_out g with Some true => Ready | Some false => Broken | None => Pending g end
+  | _ => Ready
+  end.
+
+Definition in_flight (s : state) : bool := match cut s with Some 0 => false | _ => true end.
+Definition cut_pred (s : state) : option nat := match cut s with Some k => Some (pred k) | None => None end.
 
 Definition deliver (s : state) : state :=
   if lost s then s else       (* nothing reaches a Broker after its connectionLost *)
+  if negb (in_flight s) then s else     (* the sender is gone and everything it had really sent has arrived *)
   match wire s with
   | [] => s
   | c :: w =>
     match cfate c with
-    | FRejectEarly => mk (next_id s) (sendq s) (cur s) w (inq s) (waiting s) (evq s) (Rejected (cid c) :: trace s) (lost s) (dropped s)
+    | FRejectEarly => mk (next_id s) (sendq s) (cur s) w (inq s) (waiting s) (evq s) (Rejected (cid c) :: trace s) (lost s) (dropped s) (early s) (cut_pred s)
     | f => mk (next_id s) (sendq s) (cur s) w
-              (q_put inq_push (c, rdy_on_arrival f) (inq s))
-              (waiting s) (q_put evq_push TDoNext (evq s)) (Queued (cid c) :: trace s) (lost s) (dropped s)
+              (q_put inq_push (c, rdy_on_arrival c (early s)) (inq s))
+              (waiting s) (q_put evq_push TDoNext (evq s)) (Queued (cid c) :: trace s) (lost s) (dropped s) (early s) (cut_pred s)
     end
   end.
 
@@ -170,7 +195,7 @@ Definition is_late (c : call) : bool := match cfate c with FRejectLate => true |
    arguments and gives control to the method, or the failure goes to callFailed *)
 Definition finish_call (c : call) (ok : bool) (s : state) : state :=
   mk (next_id s) (sendq s) (cur s) (wire s) (inq s) (waiting s) (q_put evq_push TDoNext (evq s))
-     ((if ok && negb (is_late c) then Entered (cid c) else Failed (cid c)) :: trace s) (lost s) (dropped s).
+     ((if ok && negb (is_late c) then Entered (cid c) else Failed (cid c)) :: trace s) (lost s) (dropped s) (early s) (cut s).
 
 Definition blocked (s : state) : bool :=
   match head_of_line with HolBlocking => negb (is_nil (waiting s)) | HolNone => false end.
@@ -181,11 +206,11 @@ Definition do_next (s : state) : state :=
   match q_take inq_pop (inq s) with
   | None => s
   | Some ((c, r), rest) =>
-    let s1 := mk (next_id s) (sendq s) (cur s) (wire s) rest (waiting s) (evq s) (trace s) (lost s) (dropped s) in
+    let s1 := mk (next_id s) (sendq s) (cur s) (wire s) rest (waiting s) (evq s) (trace s) (lost s) (dropped s) (early s) (cut s) in
     match r with
     | Ready => finish_call c true s1
     | Broken => finish_call c false s1
-    | Pending g => mk (next_id s) (sendq s) (cur s) (wire s) rest (waiting s ++ [(c, g)]) (evq s) (trace s) (lost s) (dropped s)
+    | Pending g => mk (next_id s) (sendq s) (cur s) (wire s) rest (waiting s ++ [(c, g)]) (evq s) (trace s) (lost s) (dropped s) (early s) (cut s)
     end
   end.
 
@@ -204,40 +229,61 @@ Definition step_rdy (ok : bool) (r : rdy) : rdy :=
    still queued: then only its ready_deferred changes.  After Broker.finish the acknowledgement that
    TheirReferenceUnslicer.ackGift sends through broker.remote_broker (None by then) raises, so a gift that resolves after
    the loss counts as failed (ack_after_loss_fails, read from the source) *)
-Definition gift_ready (k : nat) (ok : bool) (s : state) : state :=
-  let ok' := ok && negb (ack_after_loss_fails && lost s) in
+Definition gift_ready_gen (acked : bool) (k : nat) (ok : bool) (s : state) : state :=
+  let ok' := ok && negb (lost s && ((acked && ack_after_loss_fails) || docall_checks_disconnected)) in
   match find (fun e => cid (fst e) =? k) (waiting s) with
   | Some (c, g) =>
     let g' := gift_fire ok' g in
     match g_out g' with
     | Some r =>
       finish_call c r (mk (next_id s) (sendq s) (cur s) (wire s) (inq s)
-                          (filter (fun e => negb (cid (fst e) =? k)) (waiting s)) (evq s) (trace s) (lost s) (dropped s))
+                          (filter (fun e => negb (cid (fst e) =? k)) (waiting s)) (evq s) (trace s) (lost s) (dropped s) (early s) (cut s))
     | None =>
       mk (next_id s) (sendq s) (cur s) (wire s) (inq s)
-         (map (fun e => if cid (fst e) =? k then (fst e, g') else e) (waiting s)) (evq s) (trace s) (lost s) (dropped s)
+         (map (fun e => if cid (fst e) =? k then (fst e, g') else e) (waiting s)) (evq s) (trace s) (lost s) (dropped s) (early s) (cut s)
     end
   | None =>
     mk (next_id s) (sendq s) (cur s) (wire s)
        (map (fun e => if cid (fst e) =? k then (fst e, step_rdy ok' (snd e)) else e) (inq s))
-       (waiting s) (evq s) (trace s) (lost s) (dropped s)
+       (waiting s) (evq s) (trace s) (lost s) (dropped s) (early s) (cut s)
+  end.
+
+(* acked = true: the reference came with a non-zero giftID, as every honest sender's does (Broker.makeGift counts from 1);
+   acked = false: the PEER chose giftID 0, ackGift sends nothing and therefore cannot fail after a loss.
+   docall_checks_disconnected (read from Broker._doCall): the method is not given control on a finished Broker anyway *)
+Definition gift_ready := gift_ready_gen true.
+
+(* a third-party reference of call k resolves / fails while k is still being received (its bytes are on the wire) *)
+Definition early_gift (k : nat) (ok : bool) (s : state) : state :=
+  if existsb (fun c => cid c =? k) (wire s)
+  then mk (next_id s) (sendq s) (cur s) (wire s) (inq s) (waiting s) (evq s) (trace s) (lost s) (dropped s) (early s ++ [(k, ok)]) (cut s)
+  else s.
+
+(* the SENDER's Broker gets connectionLost: its RootSlicer keeps its queue and goes on serializing (Banana.connectionLost does
+   not touch it), but the transport is dead -- only what was completely written before can still arrive *)
+Definition sender_lost (s : state) : state :=
+  match cut s with
+  | Some _ => s
+  | None => mk (next_id s) (sendq s) (cur s) (wire s) (inq s) (waiting s) (evq s) (trace s) (lost s) (dropped s) (early s)
+               (Some (List.length (wire s)))
   end.
 
 (* Broker.connectionLost -> Broker.finish on the receiving side: disconnected = True; the queued deliveries are forgotten *)
 Definition disconnect (s : state) : state :=
   if lost s then s else
   if finish_clears_inq
-  then mk (next_id s) (sendq s) (cur s) (wire s) [] (waiting s) (evq s) (trace s) true (dropped s ++ map fst (inq s))
-  else mk (next_id s) (sendq s) (cur s) (wire s) (inq s) (waiting s) (evq s) (trace s) true (dropped s).
+  then mk (next_id s) (sendq s) (cur s) (wire s) [] (waiting s) (evq s) (trace s) true (dropped s ++ map fst (inq s)) (early s) (cut s)
+  else mk (next_id s) (sendq s) (cur s) (wire s) (inq s) (waiting s) (evq s) (trace s) true (dropped s) (early s) (cut s).
 
 Definition run_thunk (s : state) (t : thunk) : state := match t with TDoNext => do_next s end.
 
 (* _SimpleCallQueue._turn: take the current batch, run it *)
 Definition turn (s : state) : state :=
   let batch := match evq_iter with IterForward => evq s | IterReverse => rev (evq s) end in
-  fold_left run_thunk batch (mk (next_id s) (sendq s) (cur s) (wire s) (inq s) (waiting s) [] (trace s) (lost s) (dropped s)).
+  fold_left run_thunk batch (mk (next_id s) (sendq s) (cur s) (wire s) (inq s) (waiting s) [] (trace s) (lost s) (dropped s) (early s) (cut s)).
 
-Inductive op := Issue (stalls : nat) (f : fate) | StallRelease | Deliver | GiftReady (k : nat) (ok : bool) | Turn | Disconnect.
+Inductive op := Issue (stalls : nat) (f : fate) | StallRelease | Deliver | GiftReady (k : nat) (ok : bool) | Turn | Disconnect
+  | EarlyGift (k : nat) (ok : bool) | SenderLost | GiftReady0 (k : nat) (ok : bool).
 
 Definition step (s : state) (o : op) : state :=
   match o with
@@ -247,6 +293,9 @@ Definition step (s : state) (o : op) : state :=
   | GiftReady k ok => gift_ready k ok s
   | Turn => turn s
   | Disconnect => disconnect s
+  | EarlyGift k ok => early_gift k ok s
+  | SenderLost => sender_lost s
+  | GiftReady0 k ok => gift_ready_gen false k ok s
   end.
 
 Definition run (ops : list op) : state := fold_left step ops init.
